@@ -22,6 +22,10 @@ type Clause struct {
 	Func  string // generated Go function name
 	Props []string
 	Line  int
+	// ByLemma: the clause is not checked against the body in the function's own
+	// unit; it is exactly the statement of the named lemma, which is proved with
+	// the function's body unfolded.
+	ByLemma string
 }
 
 // Contract of one function or method.
@@ -55,6 +59,7 @@ type SpecFile struct {
 	Lemmas    []*Lemma
 	Loops     map[string]*LoopSpec // "Func#ordinal"
 	Inline    map[string]bool
+	NoContract map[string][]string // unit (lemma/function) -> functions whose contracts are not used there
 	SpecFuncs []string
 	body      bytes.Buffer
 	NAssume   int
@@ -63,6 +68,8 @@ type SpecFile struct {
 	NBounded  int
 }
 
+var byLemmaRe = regexp.MustCompile(`^\[by ([A-Za-z0-9_]+)\]\s*`)
+
 var tagRe = regexp.MustCompile(`^((?:@C\d+\s+)*)`)
 
 func ParseSpecFile(path string) (*SpecFile, error) {
@@ -70,7 +77,7 @@ func ParseSpecFile(path string) (*SpecFile, error) {
 	if err != nil {
 		return nil, err
 	}
-	sf := &SpecFile{Path: path, Contracts: map[string]*Contract{}, Loops: map[string]*LoopSpec{}, Inline: map[string]bool{}}
+	sf := &SpecFile{Path: path, Contracts: map[string]*Contract{}, Loops: map[string]*LoopSpec{}, Inline: map[string]bool{}, NoContract: map[string][]string{}}
 	lines := strings.Split(string(raw), "\n")
 	var cur *Contract
 	var curLoop *LoopSpec
@@ -107,6 +114,11 @@ func ParseSpecFile(path string) (*SpecFile, error) {
 		switch fields[0] {
 		case "import":
 			sf.Imports = append(sf.Imports, strings.TrimSpace(strings.TrimPrefix(trim, "import")))
+		case "option":
+			// option <unit> nocontract <F1> <F2> ...
+			if len(fields) >= 4 && fields[2] == "nocontract" {
+				sf.NoContract[fields[1]] = append(sf.NoContract[fields[1]], fields[3:]...)
+			}
 		case "inline":
 			for _, f := range fields[1:] {
 				sf.Inline[f] = true
@@ -148,7 +160,12 @@ func ParseSpecFile(path string) (*SpecFile, error) {
 				props = append(props, strings.TrimPrefix(t, "@"))
 			}
 			rest = strings.TrimSpace(rest[len(m):])
-			cl := &Clause{Kind: fields[0], Text: rest, Props: props, Line: ln + 1}
+			byLemma := ""
+			if mm := byLemmaRe.FindStringSubmatch(rest); mm != nil {
+				byLemma = mm[1]
+				rest = strings.TrimSpace(rest[len(mm[0]):])
+			}
+			cl := &Clause{Kind: fields[0], Text: rest, Props: props, Line: ln + 1, ByLemma: byLemma}
 			if fields[0] == "requires" {
 				cl.Func = fmt.Sprintf("gvcC_%s_req%d", sanitizeKey(cur.Key), len(cur.Requires))
 				cur.Requires = append(cur.Requires, cl)
@@ -191,7 +208,7 @@ func ParseSpecFile(path string) (*SpecFile, error) {
 			}
 			body := strings.Fields(strings.TrimSpace(parts[1]))
 			curLoop = &LoopSpec{}
-			if len(body) >= 2 && (body[0] == "unroll" || body[0] == "bounded") {
+			if len(body) >= 2 && (body[0] == "unroll" || body[0] == "bounded" || body[0] == "concrete") {
 				curLoop.Mode = body[0]
 				fmt.Sscanf(body[1], "%d", &curLoop.N)
 				if body[0] == "bounded" {
@@ -237,7 +254,7 @@ func ParseSpecFile(path string) (*SpecFile, error) {
 
 func isKeyword(s string) bool {
 	switch s {
-	case "import", "inline", "contract", "trusted", "requires", "ensures", "modifies", "pure", "loop", "spec", "lemma":
+	case "import", "inline", "option", "contract", "trusted", "requires", "ensures", "modifies", "pure", "loop", "spec", "lemma":
 		return true
 	}
 	return false
